@@ -225,8 +225,12 @@ pub fn parse_script(text: &str) -> Result<String, String> {
             out.push_str(&format!("{:02x}", b));
         }
         for c in p.into_inner() {
-            out.push(' ');
-            dump(c, out);
+            let mut s = String::new();
+            dump(c, &mut s);
+            if !s.is_empty() {
+                out.push(' ');
+                out.push_str(&s);
+            }
         }
         out.push(')');
     }
